@@ -96,6 +96,15 @@ ENUMS_FOR = {
 }
 
 
+def near_miss_types(rng, etype):
+    """unknown event types that are one edit away from a known one (or from a wildcard prefix)"""
+    if etype.startswith("m.secret_storage.key."):
+        return ["m.secret_storage.key", "m.secret_storage.key_backup", "m.secret_storage.keys", "m.secret_storage.ke",
+                "m.secret_storage.keyx.y", "M.SECRET_STORAGE.KEY.x"]
+    out = [etype + "x", etype + ".x", etype[:-1], etype + "_v2", etype.upper(), etype + "s", etype + "."]
+    return [x for x in out if x and x != etype]
+
+
 def gen_room_event(rng, kind):
     """-> (event_without_envelope_specifics...)"""
     if kind == "state":
@@ -129,8 +138,8 @@ def shard(ctx):
         kind = rng.choice(["state", "message"])
         etype, content, state_key, redacts = gen_room_event(rng, kind)
         custom = False
-        if rng.random() < 0.06:
-            etype = rng.choice(["org.example.custom", "m.room.unknown_future_type", "x", "m.room.member.suffix"])
+        if rng.random() < 0.08:
+            etype = rng.choice(["org.example.custom", "m.room.unknown_future_type", "x", "m.room.member.suffix"] + near_miss_types(rng, etype))
             content = g.rand_object(rng, 2, 3) if rng.random() < 0.5 else content
             custom = True
         fmtk = rng.choice(["full", "sync", "stripped"] if kind == "state" else ["full", "sync"])
@@ -205,10 +214,18 @@ def shard(ctx):
         c2 = copy.deepcopy(content)
         if rng.random() < 0.4 and etype not in ("m.direct", "m.receipt"):
             ge.add_unknown_fields(rng, c2, 1)
+        custom = False
+        if rng.random() < 0.12:
+            # an unknown type one edit away from this one: must land in the custom variant
+            etype = rng.choice(near_miss_types(rng, ge.real_type(etype) if not etype.startswith("m.") else etype))
+            custom = True
+            rep.count("custom_types")
         ev = ge.envelope(rng, etype, c2, f)
         for en in enums:
             de_cmds.append({"op": "event_de", "enum": en, "text": fmt(ev)})
-            de_meta.append((ev, kindname, f, etype, False, False, en, "plain", len(content) > 0))
+            de_meta.append((ev, kindname, f, etype, custom, False, en, "plain", len(content) > 0))
+        if custom:
+            continue
             try:
                 de_cmds.append({"op": "event_de", "enum": en, "text": g.render(ev, rng)})
                 de_meta.append((ev, kindname, f, etype, False, False, en, "respelled", len(content) > 0))
